@@ -18,7 +18,7 @@ from sim import specs, canon, core, seams, refsolve
 ID = "C15"
 DEFAULT_SEED = {"quick": 1515, "thorough": 2515}
 TIERS = {"quick": {"runs": 1200, "budget_s": 100, "cap_s": 150},
-         "thorough": {"runs": 9000, "budget_s": 1500, "cap_s": 240}}
+         "thorough": {"runs": 36000, "budget_s": 1500, "cap_s": 240}}
 STUBS = ["SimClock ('now' over the grid; EAO never reads it)", "PriceFeed (new/drop/dup/stale curves)",
          "SimSolver outages (raise, status:<s>) on the desk's solve", "restart (all Python objects dropped; spec and JSON-encoded solution survive)",
          "the desk (client loop)"]
